@@ -137,6 +137,9 @@ type world struct {
 	fixedLookaheads []int                // restrict the lookahead variants (nil: all)
 	verbatim        bool                 // documents are used as they are: no content faults are derived from them
 	hasCallbacks    bool
+	// altBuild builds the SAME grammar type with another option set (another ParseTypeWith
+	// function, another Union registration); used by the build-order clause of C09
+	altBuild func(o buildOpts) PH
 }
 
 func (w *world) lookaheads() []int {
